@@ -14,7 +14,15 @@ RULE = ("tally: operation sequences (a<size> alloc, z<size> alloc_zeroed, d<size
         "build must panic and the release build must wrap exactly as the model says. threads: the same kinds of sequence, with "
         "c = thread_alloc_clear(), driven through a static AllocProfiler<Mock> on 1..8 threads at once (thread 0 is the "
         "harness' main thread, which keeps its slot across cases); each thread's tally is read with thread_alloc_info() and "
-        "compared with the model run on a global interleaving projected to that thread. Non-trivial = at least two different "
+        "compared with the model run on a global interleaving projected to that thread. record: a real Bencher run (hook "
+        "run_bencher, virtual clock, 1..3 threads, sample_count 1..7, sample size fixed in {1,2,3,5,16} or tuned, thread t "
+        "allocating 16*(t+1) bytes per active call through the static AllocProfiler<Mock>, behaviour per thread never / always / "
+        "only the first A calls / only after A calls / every M-th call, flavour alloc, alloc+dealloc, alloc+realloc, alloc_zeroed, "
+        "dealloc only); the harness reports per round and thread the operations tallied between the crate's TALLY_CLEAR and "
+        "TALLY_SNAPSHOT markers and the dump (time_samples.len(), alloc_info_by_sample); the model turns the history into "
+        "clear/record operations and must produce the same dump; Sb = every sample has exactly its own thread's snapshot of its own "
+        "round iff that snapshot is non-empty (record stream non-trivial = at least 2 threads, some sample with and some without a "
+        "record). Non-trivial = at least two different "
         "rows non-zero and a peak that is not the final balance (max count != current count or max size != current size); "
         "distinct by input line.")
 ASSUMPTIONS = [
@@ -25,6 +33,9 @@ ASSUMPTIONS = [
     "outside it only model = implementation is checked (debug panics / release wraps)",
 ]
 TRUSTED = [
+    "record stream: which rounds are tuning rounds (clear before recording) is reconstructed in ocaml/alloc.ml from the observed "
+    "per-round sample sizes (all rounds up to the first one at the final size, when no sample size is fixed) - the tuning rule "
+    "itself belongs to C19; the per-round per-thread operations come from the harness' own call log",
     "harness/hx-alloc Mock inner allocator (records calls, returns made-up pointers, never touches memory)",
     "divan::__verif::{tally_run, thread_alloc_info, thread_alloc_clear} are plain copies/wrappers of ThreadAllocInfo",
 ]
@@ -227,6 +238,75 @@ def gen_threads(rng, tier, flag, n, maxlen):
     return cases
 
 
+
+FLAV = "adrzf"
+
+
+def gen_record(rng, flag, n):
+    """Real Bencher runs: threads, sample count, fixed or tuned sample size, ticks per call, per-thread behaviour."""
+    fixed = [
+        "t=1 n=3 s=2 step=1000 b=always:a",
+        "t=2 n=5 s=0 step=20000 b=first:3:a,never",          # discarded tuning samples non-empty, kept ones empty
+        "t=3 n=4 s=0 step=30000 b=first:2:d,every:3:r,after:5:z",
+        "t=3 n=6 s=1 step=1000 b=never,always:f,never",
+        "t=3 n=7 s=1 step=1000 b=always:a,always:a,always:a",  # every thread non-empty: thread-identifying sizes
+        "t=2 n=4 s=0 step=200000 b=never,always:z",           # precision reached at size 1
+        "t=3 n=5 s=0 step=3000 b=first:1:a,after:20:r,first:7:f",
+        "t=1 n=1 s=0 step=1000 b=first:40:a",
+        "t=2 n=2 s=3 step=400 b=never,never",
+    ]
+    cases = [f"{flag} {c}" for c in fixed]
+    while len(cases) < n:
+        t = rng.choice([1, 2, 2, 3, 3, 3])
+        ns = rng.randrange(1, 8)
+        sz = 0 if rng.random() < 0.55 else rng.choice([1, 1, 2, 3, 5, 16])
+        step = rng.choice([400, 1000, 3000, 20000, 60000, 200000])
+        beh = []
+        for _ in range(t):
+            k = rng.random()
+            f = rng.choice(FLAV)
+            if k < 0.25:
+                beh.append("never")
+            elif k < 0.40:
+                beh.append(f"always:{f}")
+            elif k < 0.65:
+                beh.append(f"first:{rng.randrange(1, 13)}:{f}")
+            elif k < 0.85:
+                beh.append(f"after:{rng.randrange(1, 41)}:{f}")
+            else:
+                beh.append(f"every:{rng.randrange(2, 10)}:{f}")
+        cases.append(f"{flag} t={t} n={ns} s={sz} step={step} b={','.join(beh)}")
+    return cases
+
+
+def record_hist(cases):
+    h = {"1 thread": 0, "2 threads": 0, "3 threads": 0, "tuned": 0, "fixed size": 0, "some thread never allocates": 0,
+         "a thread allocates only early (first:A)": 0, "dealloc-only thread": 0}
+    for c in cases:
+        kv = dict(t.split("=", 1) for t in c.split(" ")[1:])
+        h[{"1": "1 thread", "2": "2 threads", "3": "3 threads"}[kv["t"]]] += 1
+        h["tuned" if kv["s"] == "0" else "fixed size"] += 1
+        if "never" in kv["b"]:
+            h["some thread never allocates"] += 1
+        if "first:" in kv["b"]:
+            h["a thread allocates only early (first:A)"] += 1
+        if ":f" in kv["b"]:
+            h["dealloc-only thread"] += 1
+    return h
+
+
+def record_model_input(case, impl):
+    first = impl.split(" ")[0]
+    return case + " " + (first if first.startswith("rounds=") else "rounds=-")
+
+
+def nt_record(c, m):
+    f = dict(t.split("=", 1) for t in m.split(" ") if "=" in t)
+    if f.get("rec", "-") == "-":
+        return False
+    return " t=1 " not in c and len(f["rec"].split(";")) < int(f.get("len", "0"))
+
+
 def streams(tier, rng):
     q = tier == "quick"
     n_tally = 700 if q else 15000
@@ -242,6 +322,10 @@ def streams(tier, rng):
     bound_r = gen_boundary(rng, "R", n_bound)
     thr_d = [c for c in corpus_th if c.startswith("D")] + gen_threads(rng, tier, "D", n_thr, 5000 if not q else 3000)
     thr_r = [c for c in corpus_th if c.startswith("R")] + gen_threads(rng, tier, "R", n_thr_rel, 5000)
+
+    corpus_rec = load_corpus("record")
+    rec_d = [c for c in corpus_rec if c.startswith("D")] + gen_record(rng, "D", 260 if q else 6000)
+    rec_r = [c for c in corpus_rec if c.startswith("R")] + gen_record(rng, "R", 120 if q else 3000)
 
     def thr_hist(cases):
         h = kinds_hist(cases)
@@ -259,6 +343,12 @@ def streams(tier, rng):
         Stream("profiler-threads-debug", "threads", thr_d, nontrivial=nt_threads, hist=thr_hist(thr_d),
                describe="static AllocProfiler<Mock> called directly on 1..8 threads at once; per-thread tallies"),
         Stream("profiler-threads-release", "threads", thr_r, nontrivial=nt_threads, release=True, hist=thr_hist(thr_r)),
+        Stream("recording-step-debug", "record", rec_d, nontrivial=nt_record, model_input=record_model_input, hist=record_hist(rec_d),
+               describe="real Bencher runs (run_bencher hook, virtual clock) on 1..3 threads, tuned and fixed sample sizes; the "
+                        "per-round per-thread tallied operations (from the harness' call log and the crate's TALLY_CLEAR/"
+                        "TALLY_SNAPSHOT markers) drive Model/Record.v; time_samples.len() and alloc_info_by_sample compared"),
+        Stream("recording-step-release", "record", rec_r, nontrivial=nt_record, model_input=record_model_input, release=True,
+               hist=record_hist(rec_r)),
     ]
 
 
@@ -318,9 +408,13 @@ MANIFEST = {
             "C10_max_is_peak (max count / max size are an upper bound of, and attained by, the live count / live bytes over all "
             "prefixes, empty prefix included, balances in Z so over-deallocation is covered), C10_thread_isolated (for every "
             "interleaving a thread's tally is the one its own events produce), C10_clear_resets, C10_build_independent, plus the "
-            "meaning of the boolean specification and model-satisfies-specification. The model (64-bit wrap, overflowing_sub, "
+            "meaning of the boolean specification and model-satisfies-specification; C10_release_exact_mod (release build, no guard: rows "
+            "mod 2^64, wrapped balances); C10_record_exact / C10_record_keys_injective / C10_record_clear_forgets (the recording step: "
+            "for every sequence of rounds and clears each kept sample is associated with exactly its own thread's snapshot of its own "
+            "round iff that is non-empty; distinct (round, thread) have distinct keys; nothing survives a clear). The model (64-bit wrap, overflowing_sub, "
             "wrapping_abs, debug-panic/release-wrap written out) is tied to src/alloc.rs by differential execution: __verif::tally_run "
-            "and the real AllocProfiler<Mock> path on 1..8 concurrent threads, debug and release, including operands around 2^63/2^64.",
+            "and the real AllocProfiler<Mock> path on 1..8 concurrent threads, debug and release, including operands around 2^63/2^64, "
+            "and real Bencher runs on 1..3 threads (tuned and fixed sample sizes) whose alloc_info_by_sample dump is compared with Model/Record.v.",
     "note": "All theorems closed under the global context. Trusted: Coq kernel, extraction, OCaml driver, hooks tally_run / "
             "thread_alloc_info / thread_alloc_clear, harness/hx-alloc, the hand-written model as validated by the correspondence "
             "streams; thread_local! per-thread slots are std semantics (exercised, not proved); macOS pthread-key path and 32-bit "
